@@ -37,12 +37,20 @@ DirectOk(e) ==
        THEN Chk(c.res = "ok" /\ SlicesOk(e, c) /\ \A k \in 1..Len(c.hook) : PairDisjoint(c.hook[k]),
                 <<"admissible paired borrow refused, overlapping or outside the slab", ctx>>)
        ELSE Chk(c.res = "panic", <<"paired borrow granted for equal or out-of-range indices", ctx>>)
+\* binary matrices: a row index beyond the current height (the storage may still hold rows cut off by a resize) is refused,
+\* in-range controls are served
+MatDirectOk(e) ==
+  \A i \in 1..Len(e.calls) :
+    LET c == e.calls[i] IN
+    IF c.inrange THEN Chk(c.res = "ok", <<"an in-range matrix call was refused", e.matrix, c.op>>)
+                 ELSE Chk(c.res = "panic", <<"a matrix call with a row beyond the height was served (it can only touch memory outside the matrix)", e.matrix, c.op>>)
 Init == v_pos = 1 /\ v_pairs = 0
 Step == /\ v_pos <= Len(Rec)
         /\ LET e == Rec[v_pos] IN
            \/ e.ev \in {"meta", "end"} /\ UNCHANGED v_pairs
            \/ e.ev = "pairs" /\ PairsOk(e) = TRUE /\ v_pairs' = v_pairs + Len(e.pairs)
            \/ e.ev = "direct" /\ DirectOk(e) = TRUE /\ v_pairs' = v_pairs + Len(e.calls)
+           \/ e.ev = "matdirect" /\ MatDirectOk(e) = TRUE /\ v_pairs' = v_pairs + Len(e.calls)
         /\ v_pos' = v_pos + 1
 Spec == Init /\ [][Step]_vars
 Accepted == LET d == TLCGet("stats").diameter IN
